@@ -931,3 +931,57 @@ Definition resolve6_ctx (v : variant) (st : rstate) (s : sid) (cx : sctx6)
             r)
   | None => None
   end.
+
+(* ---------------------------------------------------------------- no registry *)
+(* allocator.GetGlobalRegistry() is nil until InitGlobalRegistry ran (and after ResetGlobalRegistry), and
+   every Registry method except SetAllocDirection starts with `if r == nil { return ... }`.  None below is
+   "the answer the implementation gave cannot come from a nil registry" (or, for SetAllocDirection, a nil
+   dereference: its only caller, pkg/ha, tests the registry first; not modelled). *)
+Definition reg_step_nil (k : rcall) : option rout :=
+  match k with
+  | RAlloc _ _ _ _ _ None => Some ROExhausted
+  | RRelease _ _ _ => Some ROOk
+  | RReserveInPool _ _ _ _ None => Some ROOk
+  | RReserve _ _ _ None => Some ROOk
+  | RReleaseInPool _ _ _ None => Some ROOk
+  | RReleaseByValue _ _ None => Some ROOk
+  | RAvail _ _ => Some RONoPool
+  | RPools _ _ => Some (ROList [])
+  | _ => None
+  end.
+Definition reg_step_opt (v : variant) (r : option rstate) (k : rcall) : option (option rstate * rout) :=
+  match r with
+  | Some st => match reg_step v st k with Some (st', o) => Some (Some st', o) | None => None end
+  | None => match reg_step_nil k with Some o => Some (None, o) | None => None end
+  end.
+
+(* ResolveV4 / ResolveV6 with whatever GetGlobalRegistry() returns.  Without a registry nothing is
+   allocated and an address or prefix the context brings is accepted without any reservation. *)
+Definition resolve4_ctx_opt (v : variant) (r : option rstate) (s : sid) (cx : sctx4)
+                            (obs : option (key * gobs)) (wobs : option key)
+  : option (option rstate * sctx4 * res4) :=
+  match r with
+  | Some st => match resolve4_ctx v st s cx obs wobs with
+               | Some (st', cx', x) => Some (Some st', cx', x) | None => None end
+  | None =>
+      match c4_addr cx, obs with
+      | Some a, _ => Some (None, cx, R4 a None)
+      | None, None => Some (None, cx, R4Nil)
+      | None, Some _ => None
+      end
+  end.
+Definition resolve6_ctx_opt (v : variant) (r : option rstate) (s : sid) (cx : sctx6)
+                            (obsna obspd : option (key * gobs)) (wna wpd : option key)
+  : option (option rstate * sctx6 * r6) :=
+  match r with
+  | Some st => match resolve6_ctx v st s cx obsna obspd wna wpd with
+               | Some (st', cx', x) => Some (Some st', cx', x) | None => None end
+  | None =>
+      match obsna, obspd with
+      | None, None =>
+          Some (None, cx,
+                {| r6_nil := match c6_na cx, c6_pd cx with None, None => true | _, _ => false end;
+                   r6_na := c6_na cx; r6_napool := None; r6_pd := None; r6_pdpool := None |})
+      | _, _ => None
+      end
+  end.
